@@ -267,12 +267,226 @@ proof { lemma_alt_wf(a0, b0); }
 '''),
     ])
 
+
+F_CAST = 'scnr/src/internal/comparable_ast.rs'
+
+nfa_new = Fn(F_NFA, 'Nfa', 'new', ret='r', props=['C02'],
+    spec='ensures ids_ok(r), nfa_view(r) == v_new(), r.states@.len() == 1',
+    edits=[Tail("""
+proof {
+    assert(__res.states@.len() == 1);
+    lemma_view_ext(nfa_view(__res), v_new());
+}
+""")])
+
+add_transition = Fn(F_NFA, 'Nfa', 'add_transition', props=['C02'],
+    spec="""
+requires ids_ok(*old(self)), from.0 < old(self).states@.len(), old(char_class_registry).view().len() < u32::MAX
+ensures
+    ids_ok(*final(self)), final(self).states@.len() == old(self).states@.len(),
+    final(self).start_state == old(self).start_state, final(self).end_state == old(self).end_state,
+    ({
+        let (id, reg1) = reg_add(old(char_class_registry).view(), chars);
+        0 <= id <= u32::MAX && final(char_class_registry).view() == reg1
+            && nfa_view(*final(self)) == v_add_trans(nfa_view(*old(self)), from.0 as int, CharClassID(id as u32), target_state.0 as int)
+    }),
+""",
+    edits=[Ins('body_end', None, """
+proof {
+    let (id, reg1) = reg_add(old(char_class_registry).view(), chars);
+    let a = nfa_view(*self);
+    let b = v_add_trans(nfa_view(*old(self)), from.0 as int, CharClassID(id as u32), target_state.0 as int);
+    assert forall|i: int| 0 <= i < a.states.len() implies (#[trigger] a.states[i]).eps =~= b.states[i].eps && a.states[i].trans =~= b.states[i].trans by { }
+    lemma_view_ext(a, b);
+}
+""")])
+
+REP_INV = """
+invariant
+    {it}.obeys_prophetic_iter_laws(), {it}.decrease() is Some,
+    ids_ok(nfa), ids_ok({x}), v_wf(nfa_view({x})), {x}.states@.len() >= 1, v_wf(nfa_view(nfa)), nfa.states@.len() >= 1,
+    nfa_view({x}) == {xv},
+    0 <= {k} <= {cnt}, {it}.remaining().len() == {cnt} - {k},
+    nfa_view(nfa) == {acc},
+    {fits},
+decreases {it}.decrease()->0
+"""
+
+try_from_ast2 = Fn(
+    F_NFA, 'Nfa', 'try_from_ast', ret='r', attrs='#[verifier::loop_isolation(false)] #[verifier::allow_complex_invariants]',
+    spec="""
+requires th_fits(ast, old(char_class_registry).view())
+ensures
+    r matches Ok(n) ==> ids_ok(n) && v_wf(nfa_view(n)) && n.states@.len() >= 1
+        // the automaton is exactly the Thompson construction of the AST; leaves were registered left to right
+        && (nfa_view(n), final(char_class_registry).view()) == thompson(ast, old(char_class_registry).view()),
+decreases ast
+""",
+    props=['C02'],
+    edits=[
+        Ins('body_start', None, """
+let ghost ast0 = ast;
+let ghost reg0 = char_class_registry.view();
+proof { lemma_new_wf(); }
+"""),
+        Replace('E5', 'nfa.set_pattern(&ast.to_string());', 'nfa.set_pattern(&verif_ast_to_string(&ast));',
+                why='TRUSTED: Display of the AST (pattern text, debugging only) is opaque'),
+        Replace('E5', 'Err(unsupported!($_))', 'Err(verif_unsupported())', occ='all', why='TRUSTED: error message construction (format!) is opaque'),
+        # ---- leaves
+        Ins('before', 'Ok(nfa)', """
+proof {
+    let (id, reg1) = reg_add(reg0, ast0);
+    lemma_leaf_view(id);
+}
+""", occ=2, label='try_from_ast.literal'),
+        Ins('before', 'Ok(nfa)', """
+proof {
+    let (id, reg1) = reg_add(reg0, ast0);
+    lemma_leaf_view(id);
+}
+""", occ=3, label='try_from_ast.dot'),
+        Ins('before', 'Ok(nfa)', """
+proof {
+    let (id, reg1) = reg_add(reg0, ast0);
+    lemma_leaf_view(id);
+}
+""", occ=4, label='try_from_ast.class'),
+        # ---- repetition
+        Ins('after_stmt', 'let mut nfa2: Nfa = $_;', """
+let ghost xv = nfa_view(nfa2);
+let ghost reg1 = char_class_registry.view();
+proof {
+    assert((xv, reg1) == thompson(*r.ast, reg0));
+    lemma_opt_wf(xv); lemma_plus_wf(xv); lemma_star_wf(xv);
+}
+""", label='try_from_ast.repetition_operand'),
+        Ins('before', 'for _ in $lo..$hi {', 'let ghost mut k1: nat = 0;', occ=1),
+        ForLoop('for _ in $lo..$hi {', it='__r1', occ=1, label='try_from_ast.exactly', spec=REP_INV.format(
+            it='__r1', x='nfa2', xv='xv', k='k1', cnt='*c', acc='v_rep(v_new(), xv, k1)',
+            fits='forall|k: nat| k <= *c ==> (#[trigger] v_rep(v_new(), xv, k)).states.len() + xv.states.len() <= max_states()')),
+        Ins('block_end', 'for _ in $lo..$hi {', """
+proof { lemma_concat_wf(v_rep(v_new(), xv, k1), xv); lemma_concat_len(v_rep(v_new(), xv, k1), xv); k1 = k1 + 1; }
+""", occ=1),
+        Ins('before', 'for _ in $lo..$hi {', 'let ghost mut k2: nat = 0;', occ=2),
+        ForLoop('for _ in $lo..$hi {', it='__r2', occ=2, label='try_from_ast.at_least', spec=REP_INV.format(
+            it='__r2', x='nfa2', xv='xv', k='k2', cnt='*c', acc='v_rep(v_new(), xv, k2)',
+            fits='forall|k: nat| k <= *c ==> (#[trigger] v_rep(v_new(), xv, k)).states.len() + xv.states.len() + 2 <= max_states()')),
+        Ins('block_end', 'for _ in $lo..$hi {', """
+proof { lemma_concat_wf(v_rep(v_new(), xv, k2), xv); lemma_concat_len(v_rep(v_new(), xv, k2), xv); k2 = k2 + 1; }
+""", occ=2),
+        Ins('after_stmt', 'nfa.concat(nfa_zero_or_more);', """
+proof { lemma_concat_wf(v_rep(v_new(), xv, *c as nat), v_star(xv)); }
+"""),
+        Ins('before', 'for _ in $lo..$hi {', 'let ghost mut k3: nat = 0;', occ=3),
+        ForLoop('for _ in $lo..$hi {', it='__r3', occ=3, label='try_from_ast.bounded_least', spec=REP_INV.format(
+            it='__r3', x='nfa2', xv='xv', k='k3', cnt='*least', acc='v_rep(v_new(), xv, k3)',
+            fits='forall|k: nat| k <= *least ==> (#[trigger] v_rep(v_new(), xv, k)).states.len() + xv.states.len() + 1 <= max_states()')),
+        Ins('block_end', 'for _ in $lo..$hi {', """
+proof { lemma_concat_wf(v_rep(v_new(), xv, k3), xv); lemma_concat_len(v_rep(v_new(), xv, k3), xv); k3 = k3 + 1; }
+""", occ=3),
+        Ins('before', 'for _ in $lo..$hi {', """
+let ghost mut k4: nat = 0;
+let ghost base = v_rep(v_new(), xv, *least as nat);
+let ghost ov = v_opt(xv);
+""", occ=4),
+        ForLoop('for _ in $lo..$hi {', it='__r4', occ=4, label='try_from_ast.bounded_most', spec=REP_INV.format(
+            it='__r4', x='nfa_zero_or_one', xv='ov', k='k4', cnt='(*most - *least)', acc='v_rep(base, ov, k4)',
+            fits='*least <= *most, forall|k: nat| k <= *most - *least ==> (#[trigger] v_rep(base, ov, k)).states.len() + xv.states.len() + 1 <= max_states()')),
+        Ins('block_end', 'for _ in $lo..$hi {', """
+proof { lemma_concat_wf(v_rep(base, ov, k4), ov); lemma_concat_len(v_rep(base, ov, k4), ov); k4 = k4 + 1; }
+""", occ=4),
+        # ---- group: the flags check only decides Ok / Err
+        Replace('E11', 'if flags.items.iter().any(|f| $body) {', """
+let mut __any = false;
+let mut __it0 = flags.items.iter();
+loop
+    invariant __it0.obeys_prophetic_iter_laws(), __it0.decrease() is Some,
+    decreases __it0.decrease()->0
+{
+    let Some(f) = __it0.next() else { break };
+    if $body { __any = true; break; }
+}
+if __any {""", why='iter().any(|f| p(f)) is the short-circuiting loop (std definition); the predicate body is kept verbatim'),
+        # ---- alternation
+        Ins('after_stmt', 'let mut asts = a.asts.iter();', """
+let ghost xs = a.asts@;
+let ghost mut n: int = 0;
+proof {
+    assert(asts.remaining().len() == xs.len());
+    assert(forall|i: int| 0 <= i < asts.remaining().len() ==> *#[trigger] asts.remaining()[i] == xs[i]);
+    assert(th_fits(ast0, reg0) == th_alt_fits(xs, xs.len() as int, reg0));
+}
+""", label='try_from_ast.alternation'),
+        Ins('after', 'if let Some(ast) = asts.next() {', """
+proof {
+    assert(*ast == xs[0]);
+    lemma_alt_fits_prefix(xs, 1, xs.len() as int, reg0);
+}
+"""),
+        Ins('after_stmt', 'nfa.pattern = pattern;', """
+proof { n = 1; }
+"""),
+        ForLoop('for ast in asts {', it='__it1', into_iter=False, label='try_from_ast.alternation_loop', spec="""
+invariant
+    __it1.obeys_prophetic_iter_laws(), __it1.decrease() is Some,
+    xs == a.asts@, ast0 == Ast::Alternation(*a), th_alt_fits(xs, xs.len() as int, reg0),
+    0 <= n <= xs.len(), __it1.remaining().len() == xs.len() - n, xs.len() > 0 ==> n >= 1,
+    forall|i: int| 0 <= i < __it1.remaining().len() ==> *#[trigger] __it1.remaining()[i] == xs[n + i],
+    ids_ok(nfa), v_wf(nfa_view(nfa)), nfa.states@.len() >= 1,
+    (nfa_view(nfa), char_class_registry.view()) == th_alt(xs, n, reg0),
+ensures n == xs.len(), ids_ok(nfa), v_wf(nfa_view(nfa)), nfa.states@.len() >= 1, (nfa_view(nfa), char_class_registry.view()) == th_alt(xs, n, reg0),
+decreases __it1.decrease()->0
+"""),
+        Ins('after', 'for ast in asts {', """
+proof {
+    assert(*ast == xs[n]); assert(*ast == a.asts@[n]); assert(ast0 == Ast::Alternation(*a));
+    lemma_alt_fits_prefix(xs, n + 1, xs.len() as int, reg0);
+}
+let ghost accv = nfa_view(nfa);
+""", occ=1),
+        Ins('after_stmt', 'nfa.alternation(nfa2);', """
+proof { n = n + 1; }
+"""),
+        # ---- concat
+        Ins('before', 'for ast in c.asts.iter() {', """
+let ghost ys = c.asts@;
+let ghost mut m: int = 0;
+proof { assert(th_fits(ast0, reg0) == th_concat_fits(ys, ys.len() as int, reg0)); }
+"""),
+        ForLoop('for ast in c.asts.iter() {', it='__it2', into_iter=False, label='try_from_ast.concat_loop', spec="""
+invariant
+    __it2.obeys_prophetic_iter_laws(), __it2.decrease() is Some,
+    ys == c.asts@, ast0 == Ast::Concat(*c), th_concat_fits(ys, ys.len() as int, reg0),
+    0 <= m <= ys.len(), __it2.remaining().len() == ys.len() - m,
+    forall|i: int| 0 <= i < __it2.remaining().len() ==> *#[trigger] __it2.remaining()[i] == ys[m + i],
+    ids_ok(nfa), v_wf(nfa_view(nfa)), nfa.states@.len() >= 1,
+    (nfa_view(nfa), char_class_registry.view()) == th_concat(ys, m, reg0),
+ensures m == ys.len(), ids_ok(nfa), v_wf(nfa_view(nfa)), nfa.states@.len() >= 1, (nfa_view(nfa), char_class_registry.view()) == th_concat(ys, m, reg0),
+decreases __it2.decrease()->0
+"""),
+        Ins('after', 'for ast in c.asts.iter() {', """
+proof {
+    assert(*ast == ys[m]); assert(*ast == c.asts@[m]); assert(ast0 == Ast::Concat(*c));
+    lemma_concat_fits_prefix(ys, m + 1, ys.len() as int, reg0);
+}
+"""),
+        Ins('after_stmt', 'nfa.concat(nfa2);', """
+proof { m = m + 1; }
+""", occ=1),
+    ])
+
 UNIT = dict(
     name='u_nfa',
-    externs=['rustc_hash'],
-    header='''#![allow(unused_imports, unused_variables, unused_mut, unused_assignments, dead_code, unused_parens, unused_braces)]
+    externs=['regex_syntax'],
+    header='''#![feature(allocator_api)]
+#![feature(sized_hierarchy)]
+#![allow(unused_imports, unused_variables, unused_mut, unused_assignments, dead_code, unused_parens, unused_braces)]
 use vstd::prelude::*;
 use vstd::std_specs::iter::IteratorSpec;
+use regex_syntax::ast::{
+    Alternation, Assertion, Ast, CaptureName, ClassBracketed, ClassPerl, ClassUnicode, Concat, Flag, Flags, FlagsItem, FlagsItemKind, Group,
+    GroupKind, Literal, Position, Repetition, RepetitionKind, RepetitionOp, RepetitionRange, SetFlags, Span,
+};
 ''',
     items=[
         IdMacro(F_IDS, 'StateID', members=('new', 'as_usize', 'id'), index_for=('Vec',), specs=ID_SPECS),
@@ -288,13 +502,53 @@ pub assume_specification[ <StateID as Default>::default ]() -> (r: StateID)
     ensures r.0 == 0;
 // opaque: carried along, never inspected by the combinators
 #[verifier::external_body] pub struct Pattern { _private: () }
-#[verifier::external_body] pub struct ComparableAst { _private: () }
-''', label='IndexMut<StateID> for Vec<T> (from impl_id!), opaque Pattern / ComparableAst'),
+#[verifier::external_body] pub struct ScnrError { _private: () }
+pub type Result<T> = std::result::Result<T, ScnrError>;
+impl Default for Pattern {
+    #[verifier::external_body]
+    fn default() -> (r: Self) { unimplemented!() }
+}
+// TRUSTED: construction of the error value (`unsupported!(format!(..))`) and of the pattern text (`ast.to_string()`)
+#[verifier::external_body] pub fn verif_unsupported() -> ScnrError { unimplemented!() }
+#[verifier::external_body] pub fn verif_ast_to_string(a: &Ast) -> String { unimplemented!() }
+
+/// the registry of character classes: the sequence of registered leaf ASTs (id = index)
+#[verifier::external_body] pub struct CharacterClassRegistry { _private: () }
+impl CharacterClassRegistry {
+    pub uninterp spec fn view(&self) -> Seq<Ast>;
+
+    // TRUSTED contract of CharacterClassRegistry::add_character_class (position() with ComparableAst::eq = same_class):
+    // the id of the first equal entry, else a new entry at the end
+    #[verifier::external_body]
+    pub fn add_character_class(&mut self, ast: &Ast) -> (id: CharClassID)
+        requires old(self).view().len() < u32::MAX
+        ensures (id.0 as int, final(self).view()) == reg_add(old(self).view(), *ast)
+    { unimplemented!() }
+}
+''', label='IndexMut<StateID> for Vec<T> (from impl_id!), opaque Pattern / registry'),
+        RawFile('../u_ast/ast_types.rs'),
+        Struct(F_CAST, 'ComparableAst', derive=[]),
+        Raw('''
+// derived Clone / Default (rule E4): field-wise
+impl Clone for Nfa {
+    #[verifier::external_body]
+    fn clone(&self) -> (r: Self) ensures r == *self { unimplemented!() }
+}
+impl Default for NfaState {
+    #[verifier::external_body]
+    fn default() -> (r: Self) ensures r.state.0 == 0, r.epsilon_transitions@.len() == 0, r.transitions@.len() == 0 { unimplemented!() }
+}
+pub assume_specification[ <Literal as Clone>::clone ](a: &Literal) -> (r: Literal)
+    ensures r == *a;
+pub assume_specification[ <Span as Clone>::clone ](a: &Span) -> (r: Span)
+    ensures r == *a;
+''', label='derived Clone/Default'),
         Struct(F_NFA, 'EpsilonTransition', derive=[]),
         Struct(F_NFA, 'NfaTransition', derive=[]),
         Struct(F_NFA, 'NfaState', derive=[]),
         Struct(F_NFA, 'Nfa', derive=[]),
         RawFile('nfa_spec.rs'),
+        RawFile('nfa_thompson.rs'),
         Raw('''
 pub open spec fn targets_below(s: StateV, bound: int) -> bool {
     &&& forall|k: int| 0 <= k < s.eps.len() ==> 0 <= #[trigger] s.eps[k] < bound
@@ -308,5 +562,7 @@ pub open spec fn ids_ok(n: Nfa) -> bool {
         state_offset,
         new_state_fn, add_state, set_start, set_end, end_state, new_state, add_eps, zero_or_one, one_or_more, zero_or_more,
         state_is_empty, is_empty, shift_ids, append, concat, alternation,
+        Fn(F_NFA, 'Nfa', 'set_pattern', external_body=True, spec='ensures final(self).states == old(self).states, final(self).start_state == old(self).start_state, final(self).end_state == old(self).end_state', trusted_reason='pattern text is carried along only'),
+        nfa_new, add_transition, try_from_ast2,
     ],
 )
